@@ -482,6 +482,12 @@ def replay(mod, path):
     if desc is None:
         print("replay file has no case description")
         return 2
+    # regenerate translated sources and rebuild the driver so that the replay sees the current tree
+    for tr in getattr(mod, "TRANSLATORS", []):
+        try:
+            tr()
+        except Exception:
+            traceback.print_exc()
     if hasattr(mod, "replay_desc"):
         fails = mod.replay_desc(desc)
         res = [{"failures": fails, "disagree": None, "desc": desc}]
